@@ -13,7 +13,8 @@
     and reset is credited twice; N3: a first FIN below the high-water mark is accepted),
     [true] = the repaired code, which [run] follows.
     Fields [g_*] are ghost (never observed): sum of final ends of closed streams, sum of read
-    credits granted, sum of window expansions.  [panic] records a failed checked subtraction. *)
+    credits granted, sum of window expansions, ids for which a Finished event was emitted, ids on
+    which the application's reset() succeeded.  [panic] records a failed checked subtraction. *)
 From Coq Require Import ZArith List Bool.
 From QV Require Import Lib.Corr.
 Import ListNotations.
@@ -38,6 +39,12 @@ Fixpoint aremove {A} (k : Z) (m : list (Z * A)) : list (Z * A) :=
   match m with
   | [] => []
   | (k', v) :: r => if k =? k' then r else (k', v) :: aremove k r
+  end.
+(** Removal of every entry of a key (used for the send map). *)
+Fixpoint aremove_all {A} (k : Z) (m : list (Z * A)) : list (Z * A) :=
+  match m with
+  | [] => []
+  | (k', v) :: r => if k =? k' then aremove_all k r else (k', v) :: aremove_all k r
   end.
 Fixpoint aset {A} (k : Z) (v : A) (m : list (Z * A)) : list (Z * A) :=
   match m with
@@ -285,42 +292,46 @@ Record st := mkSt {
   panic : bool;
   g_closed : Z;
   g_credits : Z;
-  g_expand : Z
+  g_expand : Z;
+  g_fin : list Z;
+  g_reset : list Z
 }.
 
-Definition set_side (v : Z) (s : st) : st := mkSt v (recvm s) (sendm s) (free_recv s) (nxt s) (maxl s) (max_remote s) (sent_max_remote s) (alloc s) (max_conc s) (next_remote s) (opened s) (next_rep s) (send_streams s) (events s) (pendq s) (local_max s) (rwin s) (sent_max_data s) (data_recvd s) (swin s) (debt s) (p_max_data s) (p_msid s) (p_msd s) (p_stop s) (p_reset s) (seen s) (slog s) (panic s) (g_closed s) (g_credits s) (g_expand s).
-Definition set_recvm (v : list (Z * rslot)) (s : st) : st := mkSt (side s) v (sendm s) (free_recv s) (nxt s) (maxl s) (max_remote s) (sent_max_remote s) (alloc s) (max_conc s) (next_remote s) (opened s) (next_rep s) (send_streams s) (events s) (pendq s) (local_max s) (rwin s) (sent_max_data s) (data_recvd s) (swin s) (debt s) (p_max_data s) (p_msid s) (p_msd s) (p_stop s) (p_reset s) (seen s) (slog s) (panic s) (g_closed s) (g_credits s) (g_expand s).
-Definition set_sendm (v : list (Z * sslot)) (s : st) : st := mkSt (side s) (recvm s) v (free_recv s) (nxt s) (maxl s) (max_remote s) (sent_max_remote s) (alloc s) (max_conc s) (next_remote s) (opened s) (next_rep s) (send_streams s) (events s) (pendq s) (local_max s) (rwin s) (sent_max_data s) (data_recvd s) (swin s) (debt s) (p_max_data s) (p_msid s) (p_msd s) (p_stop s) (p_reset s) (seen s) (slog s) (panic s) (g_closed s) (g_credits s) (g_expand s).
-Definition set_free_recv (v : Z) (s : st) : st := mkSt (side s) (recvm s) (sendm s) v (nxt s) (maxl s) (max_remote s) (sent_max_remote s) (alloc s) (max_conc s) (next_remote s) (opened s) (next_rep s) (send_streams s) (events s) (pendq s) (local_max s) (rwin s) (sent_max_data s) (data_recvd s) (swin s) (debt s) (p_max_data s) (p_msid s) (p_msd s) (p_stop s) (p_reset s) (seen s) (slog s) (panic s) (g_closed s) (g_credits s) (g_expand s).
-Definition set_nxt (v : Z * Z) (s : st) : st := mkSt (side s) (recvm s) (sendm s) (free_recv s) v (maxl s) (max_remote s) (sent_max_remote s) (alloc s) (max_conc s) (next_remote s) (opened s) (next_rep s) (send_streams s) (events s) (pendq s) (local_max s) (rwin s) (sent_max_data s) (data_recvd s) (swin s) (debt s) (p_max_data s) (p_msid s) (p_msd s) (p_stop s) (p_reset s) (seen s) (slog s) (panic s) (g_closed s) (g_credits s) (g_expand s).
-Definition set_maxl (v : Z * Z) (s : st) : st := mkSt (side s) (recvm s) (sendm s) (free_recv s) (nxt s) v (max_remote s) (sent_max_remote s) (alloc s) (max_conc s) (next_remote s) (opened s) (next_rep s) (send_streams s) (events s) (pendq s) (local_max s) (rwin s) (sent_max_data s) (data_recvd s) (swin s) (debt s) (p_max_data s) (p_msid s) (p_msd s) (p_stop s) (p_reset s) (seen s) (slog s) (panic s) (g_closed s) (g_credits s) (g_expand s).
-Definition set_max_remote (v : Z * Z) (s : st) : st := mkSt (side s) (recvm s) (sendm s) (free_recv s) (nxt s) (maxl s) v (sent_max_remote s) (alloc s) (max_conc s) (next_remote s) (opened s) (next_rep s) (send_streams s) (events s) (pendq s) (local_max s) (rwin s) (sent_max_data s) (data_recvd s) (swin s) (debt s) (p_max_data s) (p_msid s) (p_msd s) (p_stop s) (p_reset s) (seen s) (slog s) (panic s) (g_closed s) (g_credits s) (g_expand s).
-Definition set_sent_max_remote (v : Z * Z) (s : st) : st := mkSt (side s) (recvm s) (sendm s) (free_recv s) (nxt s) (maxl s) (max_remote s) v (alloc s) (max_conc s) (next_remote s) (opened s) (next_rep s) (send_streams s) (events s) (pendq s) (local_max s) (rwin s) (sent_max_data s) (data_recvd s) (swin s) (debt s) (p_max_data s) (p_msid s) (p_msd s) (p_stop s) (p_reset s) (seen s) (slog s) (panic s) (g_closed s) (g_credits s) (g_expand s).
-Definition set_alloc (v : Z * Z) (s : st) : st := mkSt (side s) (recvm s) (sendm s) (free_recv s) (nxt s) (maxl s) (max_remote s) (sent_max_remote s) v (max_conc s) (next_remote s) (opened s) (next_rep s) (send_streams s) (events s) (pendq s) (local_max s) (rwin s) (sent_max_data s) (data_recvd s) (swin s) (debt s) (p_max_data s) (p_msid s) (p_msd s) (p_stop s) (p_reset s) (seen s) (slog s) (panic s) (g_closed s) (g_credits s) (g_expand s).
-Definition set_max_conc (v : Z * Z) (s : st) : st := mkSt (side s) (recvm s) (sendm s) (free_recv s) (nxt s) (maxl s) (max_remote s) (sent_max_remote s) (alloc s) v (next_remote s) (opened s) (next_rep s) (send_streams s) (events s) (pendq s) (local_max s) (rwin s) (sent_max_data s) (data_recvd s) (swin s) (debt s) (p_max_data s) (p_msid s) (p_msd s) (p_stop s) (p_reset s) (seen s) (slog s) (panic s) (g_closed s) (g_credits s) (g_expand s).
-Definition set_next_remote (v : Z * Z) (s : st) : st := mkSt (side s) (recvm s) (sendm s) (free_recv s) (nxt s) (maxl s) (max_remote s) (sent_max_remote s) (alloc s) (max_conc s) v (opened s) (next_rep s) (send_streams s) (events s) (pendq s) (local_max s) (rwin s) (sent_max_data s) (data_recvd s) (swin s) (debt s) (p_max_data s) (p_msid s) (p_msd s) (p_stop s) (p_reset s) (seen s) (slog s) (panic s) (g_closed s) (g_credits s) (g_expand s).
-Definition set_opened (v : bool * bool) (s : st) : st := mkSt (side s) (recvm s) (sendm s) (free_recv s) (nxt s) (maxl s) (max_remote s) (sent_max_remote s) (alloc s) (max_conc s) (next_remote s) v (next_rep s) (send_streams s) (events s) (pendq s) (local_max s) (rwin s) (sent_max_data s) (data_recvd s) (swin s) (debt s) (p_max_data s) (p_msid s) (p_msd s) (p_stop s) (p_reset s) (seen s) (slog s) (panic s) (g_closed s) (g_credits s) (g_expand s).
-Definition set_next_rep (v : Z * Z) (s : st) : st := mkSt (side s) (recvm s) (sendm s) (free_recv s) (nxt s) (maxl s) (max_remote s) (sent_max_remote s) (alloc s) (max_conc s) (next_remote s) (opened s) v (send_streams s) (events s) (pendq s) (local_max s) (rwin s) (sent_max_data s) (data_recvd s) (swin s) (debt s) (p_max_data s) (p_msid s) (p_msd s) (p_stop s) (p_reset s) (seen s) (slog s) (panic s) (g_closed s) (g_credits s) (g_expand s).
-Definition set_send_streams (v : Z) (s : st) : st := mkSt (side s) (recvm s) (sendm s) (free_recv s) (nxt s) (maxl s) (max_remote s) (sent_max_remote s) (alloc s) (max_conc s) (next_remote s) (opened s) (next_rep s) v (events s) (pendq s) (local_max s) (rwin s) (sent_max_data s) (data_recvd s) (swin s) (debt s) (p_max_data s) (p_msid s) (p_msd s) (p_stop s) (p_reset s) (seen s) (slog s) (panic s) (g_closed s) (g_credits s) (g_expand s).
-Definition set_events (v : list (list Z)) (s : st) : st := mkSt (side s) (recvm s) (sendm s) (free_recv s) (nxt s) (maxl s) (max_remote s) (sent_max_remote s) (alloc s) (max_conc s) (next_remote s) (opened s) (next_rep s) (send_streams s) v (pendq s) (local_max s) (rwin s) (sent_max_data s) (data_recvd s) (swin s) (debt s) (p_max_data s) (p_msid s) (p_msd s) (p_stop s) (p_reset s) (seen s) (slog s) (panic s) (g_closed s) (g_credits s) (g_expand s).
-Definition set_pendq (v : list Z) (s : st) : st := mkSt (side s) (recvm s) (sendm s) (free_recv s) (nxt s) (maxl s) (max_remote s) (sent_max_remote s) (alloc s) (max_conc s) (next_remote s) (opened s) (next_rep s) (send_streams s) (events s) v (local_max s) (rwin s) (sent_max_data s) (data_recvd s) (swin s) (debt s) (p_max_data s) (p_msid s) (p_msd s) (p_stop s) (p_reset s) (seen s) (slog s) (panic s) (g_closed s) (g_credits s) (g_expand s).
-Definition set_local_max (v : Z) (s : st) : st := mkSt (side s) (recvm s) (sendm s) (free_recv s) (nxt s) (maxl s) (max_remote s) (sent_max_remote s) (alloc s) (max_conc s) (next_remote s) (opened s) (next_rep s) (send_streams s) (events s) (pendq s) v (rwin s) (sent_max_data s) (data_recvd s) (swin s) (debt s) (p_max_data s) (p_msid s) (p_msd s) (p_stop s) (p_reset s) (seen s) (slog s) (panic s) (g_closed s) (g_credits s) (g_expand s).
-Definition set_rwin (v : Z) (s : st) : st := mkSt (side s) (recvm s) (sendm s) (free_recv s) (nxt s) (maxl s) (max_remote s) (sent_max_remote s) (alloc s) (max_conc s) (next_remote s) (opened s) (next_rep s) (send_streams s) (events s) (pendq s) (local_max s) v (sent_max_data s) (data_recvd s) (swin s) (debt s) (p_max_data s) (p_msid s) (p_msd s) (p_stop s) (p_reset s) (seen s) (slog s) (panic s) (g_closed s) (g_credits s) (g_expand s).
-Definition set_sent_max_data (v : Z) (s : st) : st := mkSt (side s) (recvm s) (sendm s) (free_recv s) (nxt s) (maxl s) (max_remote s) (sent_max_remote s) (alloc s) (max_conc s) (next_remote s) (opened s) (next_rep s) (send_streams s) (events s) (pendq s) (local_max s) (rwin s) v (data_recvd s) (swin s) (debt s) (p_max_data s) (p_msid s) (p_msd s) (p_stop s) (p_reset s) (seen s) (slog s) (panic s) (g_closed s) (g_credits s) (g_expand s).
-Definition set_data_recvd (v : Z) (s : st) : st := mkSt (side s) (recvm s) (sendm s) (free_recv s) (nxt s) (maxl s) (max_remote s) (sent_max_remote s) (alloc s) (max_conc s) (next_remote s) (opened s) (next_rep s) (send_streams s) (events s) (pendq s) (local_max s) (rwin s) (sent_max_data s) v (swin s) (debt s) (p_max_data s) (p_msid s) (p_msd s) (p_stop s) (p_reset s) (seen s) (slog s) (panic s) (g_closed s) (g_credits s) (g_expand s).
-Definition set_swin (v : Z) (s : st) : st := mkSt (side s) (recvm s) (sendm s) (free_recv s) (nxt s) (maxl s) (max_remote s) (sent_max_remote s) (alloc s) (max_conc s) (next_remote s) (opened s) (next_rep s) (send_streams s) (events s) (pendq s) (local_max s) (rwin s) (sent_max_data s) (data_recvd s) v (debt s) (p_max_data s) (p_msid s) (p_msd s) (p_stop s) (p_reset s) (seen s) (slog s) (panic s) (g_closed s) (g_credits s) (g_expand s).
-Definition set_debt (v : Z) (s : st) : st := mkSt (side s) (recvm s) (sendm s) (free_recv s) (nxt s) (maxl s) (max_remote s) (sent_max_remote s) (alloc s) (max_conc s) (next_remote s) (opened s) (next_rep s) (send_streams s) (events s) (pendq s) (local_max s) (rwin s) (sent_max_data s) (data_recvd s) (swin s) v (p_max_data s) (p_msid s) (p_msd s) (p_stop s) (p_reset s) (seen s) (slog s) (panic s) (g_closed s) (g_credits s) (g_expand s).
-Definition set_p_max_data (v : bool) (s : st) : st := mkSt (side s) (recvm s) (sendm s) (free_recv s) (nxt s) (maxl s) (max_remote s) (sent_max_remote s) (alloc s) (max_conc s) (next_remote s) (opened s) (next_rep s) (send_streams s) (events s) (pendq s) (local_max s) (rwin s) (sent_max_data s) (data_recvd s) (swin s) (debt s) v (p_msid s) (p_msd s) (p_stop s) (p_reset s) (seen s) (slog s) (panic s) (g_closed s) (g_credits s) (g_expand s).
-Definition set_p_msid (v : bool * bool) (s : st) : st := mkSt (side s) (recvm s) (sendm s) (free_recv s) (nxt s) (maxl s) (max_remote s) (sent_max_remote s) (alloc s) (max_conc s) (next_remote s) (opened s) (next_rep s) (send_streams s) (events s) (pendq s) (local_max s) (rwin s) (sent_max_data s) (data_recvd s) (swin s) (debt s) (p_max_data s) v (p_msd s) (p_stop s) (p_reset s) (seen s) (slog s) (panic s) (g_closed s) (g_credits s) (g_expand s).
-Definition set_p_msd (v : list Z) (s : st) : st := mkSt (side s) (recvm s) (sendm s) (free_recv s) (nxt s) (maxl s) (max_remote s) (sent_max_remote s) (alloc s) (max_conc s) (next_remote s) (opened s) (next_rep s) (send_streams s) (events s) (pendq s) (local_max s) (rwin s) (sent_max_data s) (data_recvd s) (swin s) (debt s) (p_max_data s) (p_msid s) v (p_stop s) (p_reset s) (seen s) (slog s) (panic s) (g_closed s) (g_credits s) (g_expand s).
-Definition set_p_stop (v : list (Z * Z)) (s : st) : st := mkSt (side s) (recvm s) (sendm s) (free_recv s) (nxt s) (maxl s) (max_remote s) (sent_max_remote s) (alloc s) (max_conc s) (next_remote s) (opened s) (next_rep s) (send_streams s) (events s) (pendq s) (local_max s) (rwin s) (sent_max_data s) (data_recvd s) (swin s) (debt s) (p_max_data s) (p_msid s) (p_msd s) v (p_reset s) (seen s) (slog s) (panic s) (g_closed s) (g_credits s) (g_expand s).
-Definition set_p_reset (v : list (Z * Z)) (s : st) : st := mkSt (side s) (recvm s) (sendm s) (free_recv s) (nxt s) (maxl s) (max_remote s) (sent_max_remote s) (alloc s) (max_conc s) (next_remote s) (opened s) (next_rep s) (send_streams s) (events s) (pendq s) (local_max s) (rwin s) (sent_max_data s) (data_recvd s) (swin s) (debt s) (p_max_data s) (p_msid s) (p_msd s) (p_stop s) v (seen s) (slog s) (panic s) (g_closed s) (g_credits s) (g_expand s).
-Definition set_seen (v : list Z) (s : st) : st := mkSt (side s) (recvm s) (sendm s) (free_recv s) (nxt s) (maxl s) (max_remote s) (sent_max_remote s) (alloc s) (max_conc s) (next_remote s) (opened s) (next_rep s) (send_streams s) (events s) (pendq s) (local_max s) (rwin s) (sent_max_data s) (data_recvd s) (swin s) (debt s) (p_max_data s) (p_msid s) (p_msd s) (p_stop s) (p_reset s) v (slog s) (panic s) (g_closed s) (g_credits s) (g_expand s).
-Definition set_slog (v : list ((Z * Z * Z * Z) * Z)) (s : st) : st := mkSt (side s) (recvm s) (sendm s) (free_recv s) (nxt s) (maxl s) (max_remote s) (sent_max_remote s) (alloc s) (max_conc s) (next_remote s) (opened s) (next_rep s) (send_streams s) (events s) (pendq s) (local_max s) (rwin s) (sent_max_data s) (data_recvd s) (swin s) (debt s) (p_max_data s) (p_msid s) (p_msd s) (p_stop s) (p_reset s) (seen s) v (panic s) (g_closed s) (g_credits s) (g_expand s).
-Definition set_panic (v : bool) (s : st) : st := mkSt (side s) (recvm s) (sendm s) (free_recv s) (nxt s) (maxl s) (max_remote s) (sent_max_remote s) (alloc s) (max_conc s) (next_remote s) (opened s) (next_rep s) (send_streams s) (events s) (pendq s) (local_max s) (rwin s) (sent_max_data s) (data_recvd s) (swin s) (debt s) (p_max_data s) (p_msid s) (p_msd s) (p_stop s) (p_reset s) (seen s) (slog s) v (g_closed s) (g_credits s) (g_expand s).
-Definition set_g_closed (v : Z) (s : st) : st := mkSt (side s) (recvm s) (sendm s) (free_recv s) (nxt s) (maxl s) (max_remote s) (sent_max_remote s) (alloc s) (max_conc s) (next_remote s) (opened s) (next_rep s) (send_streams s) (events s) (pendq s) (local_max s) (rwin s) (sent_max_data s) (data_recvd s) (swin s) (debt s) (p_max_data s) (p_msid s) (p_msd s) (p_stop s) (p_reset s) (seen s) (slog s) (panic s) v (g_credits s) (g_expand s).
-Definition set_g_credits (v : Z) (s : st) : st := mkSt (side s) (recvm s) (sendm s) (free_recv s) (nxt s) (maxl s) (max_remote s) (sent_max_remote s) (alloc s) (max_conc s) (next_remote s) (opened s) (next_rep s) (send_streams s) (events s) (pendq s) (local_max s) (rwin s) (sent_max_data s) (data_recvd s) (swin s) (debt s) (p_max_data s) (p_msid s) (p_msd s) (p_stop s) (p_reset s) (seen s) (slog s) (panic s) (g_closed s) v (g_expand s).
-Definition set_g_expand (v : Z) (s : st) : st := mkSt (side s) (recvm s) (sendm s) (free_recv s) (nxt s) (maxl s) (max_remote s) (sent_max_remote s) (alloc s) (max_conc s) (next_remote s) (opened s) (next_rep s) (send_streams s) (events s) (pendq s) (local_max s) (rwin s) (sent_max_data s) (data_recvd s) (swin s) (debt s) (p_max_data s) (p_msid s) (p_msd s) (p_stop s) (p_reset s) (seen s) (slog s) (panic s) (g_closed s) (g_credits s) v.
+Definition set_side (v : Z) (s : st) : st := mkSt v (recvm s) (sendm s) (free_recv s) (nxt s) (maxl s) (max_remote s) (sent_max_remote s) (alloc s) (max_conc s) (next_remote s) (opened s) (next_rep s) (send_streams s) (events s) (pendq s) (local_max s) (rwin s) (sent_max_data s) (data_recvd s) (swin s) (debt s) (p_max_data s) (p_msid s) (p_msd s) (p_stop s) (p_reset s) (seen s) (slog s) (panic s) (g_closed s) (g_credits s) (g_expand s) (g_fin s) (g_reset s).
+Definition set_recvm (v : list (Z * rslot)) (s : st) : st := mkSt (side s) v (sendm s) (free_recv s) (nxt s) (maxl s) (max_remote s) (sent_max_remote s) (alloc s) (max_conc s) (next_remote s) (opened s) (next_rep s) (send_streams s) (events s) (pendq s) (local_max s) (rwin s) (sent_max_data s) (data_recvd s) (swin s) (debt s) (p_max_data s) (p_msid s) (p_msd s) (p_stop s) (p_reset s) (seen s) (slog s) (panic s) (g_closed s) (g_credits s) (g_expand s) (g_fin s) (g_reset s).
+Definition set_sendm (v : list (Z * sslot)) (s : st) : st := mkSt (side s) (recvm s) v (free_recv s) (nxt s) (maxl s) (max_remote s) (sent_max_remote s) (alloc s) (max_conc s) (next_remote s) (opened s) (next_rep s) (send_streams s) (events s) (pendq s) (local_max s) (rwin s) (sent_max_data s) (data_recvd s) (swin s) (debt s) (p_max_data s) (p_msid s) (p_msd s) (p_stop s) (p_reset s) (seen s) (slog s) (panic s) (g_closed s) (g_credits s) (g_expand s) (g_fin s) (g_reset s).
+Definition set_free_recv (v : Z) (s : st) : st := mkSt (side s) (recvm s) (sendm s) v (nxt s) (maxl s) (max_remote s) (sent_max_remote s) (alloc s) (max_conc s) (next_remote s) (opened s) (next_rep s) (send_streams s) (events s) (pendq s) (local_max s) (rwin s) (sent_max_data s) (data_recvd s) (swin s) (debt s) (p_max_data s) (p_msid s) (p_msd s) (p_stop s) (p_reset s) (seen s) (slog s) (panic s) (g_closed s) (g_credits s) (g_expand s) (g_fin s) (g_reset s).
+Definition set_nxt (v : Z * Z) (s : st) : st := mkSt (side s) (recvm s) (sendm s) (free_recv s) v (maxl s) (max_remote s) (sent_max_remote s) (alloc s) (max_conc s) (next_remote s) (opened s) (next_rep s) (send_streams s) (events s) (pendq s) (local_max s) (rwin s) (sent_max_data s) (data_recvd s) (swin s) (debt s) (p_max_data s) (p_msid s) (p_msd s) (p_stop s) (p_reset s) (seen s) (slog s) (panic s) (g_closed s) (g_credits s) (g_expand s) (g_fin s) (g_reset s).
+Definition set_maxl (v : Z * Z) (s : st) : st := mkSt (side s) (recvm s) (sendm s) (free_recv s) (nxt s) v (max_remote s) (sent_max_remote s) (alloc s) (max_conc s) (next_remote s) (opened s) (next_rep s) (send_streams s) (events s) (pendq s) (local_max s) (rwin s) (sent_max_data s) (data_recvd s) (swin s) (debt s) (p_max_data s) (p_msid s) (p_msd s) (p_stop s) (p_reset s) (seen s) (slog s) (panic s) (g_closed s) (g_credits s) (g_expand s) (g_fin s) (g_reset s).
+Definition set_max_remote (v : Z * Z) (s : st) : st := mkSt (side s) (recvm s) (sendm s) (free_recv s) (nxt s) (maxl s) v (sent_max_remote s) (alloc s) (max_conc s) (next_remote s) (opened s) (next_rep s) (send_streams s) (events s) (pendq s) (local_max s) (rwin s) (sent_max_data s) (data_recvd s) (swin s) (debt s) (p_max_data s) (p_msid s) (p_msd s) (p_stop s) (p_reset s) (seen s) (slog s) (panic s) (g_closed s) (g_credits s) (g_expand s) (g_fin s) (g_reset s).
+Definition set_sent_max_remote (v : Z * Z) (s : st) : st := mkSt (side s) (recvm s) (sendm s) (free_recv s) (nxt s) (maxl s) (max_remote s) v (alloc s) (max_conc s) (next_remote s) (opened s) (next_rep s) (send_streams s) (events s) (pendq s) (local_max s) (rwin s) (sent_max_data s) (data_recvd s) (swin s) (debt s) (p_max_data s) (p_msid s) (p_msd s) (p_stop s) (p_reset s) (seen s) (slog s) (panic s) (g_closed s) (g_credits s) (g_expand s) (g_fin s) (g_reset s).
+Definition set_alloc (v : Z * Z) (s : st) : st := mkSt (side s) (recvm s) (sendm s) (free_recv s) (nxt s) (maxl s) (max_remote s) (sent_max_remote s) v (max_conc s) (next_remote s) (opened s) (next_rep s) (send_streams s) (events s) (pendq s) (local_max s) (rwin s) (sent_max_data s) (data_recvd s) (swin s) (debt s) (p_max_data s) (p_msid s) (p_msd s) (p_stop s) (p_reset s) (seen s) (slog s) (panic s) (g_closed s) (g_credits s) (g_expand s) (g_fin s) (g_reset s).
+Definition set_max_conc (v : Z * Z) (s : st) : st := mkSt (side s) (recvm s) (sendm s) (free_recv s) (nxt s) (maxl s) (max_remote s) (sent_max_remote s) (alloc s) v (next_remote s) (opened s) (next_rep s) (send_streams s) (events s) (pendq s) (local_max s) (rwin s) (sent_max_data s) (data_recvd s) (swin s) (debt s) (p_max_data s) (p_msid s) (p_msd s) (p_stop s) (p_reset s) (seen s) (slog s) (panic s) (g_closed s) (g_credits s) (g_expand s) (g_fin s) (g_reset s).
+Definition set_next_remote (v : Z * Z) (s : st) : st := mkSt (side s) (recvm s) (sendm s) (free_recv s) (nxt s) (maxl s) (max_remote s) (sent_max_remote s) (alloc s) (max_conc s) v (opened s) (next_rep s) (send_streams s) (events s) (pendq s) (local_max s) (rwin s) (sent_max_data s) (data_recvd s) (swin s) (debt s) (p_max_data s) (p_msid s) (p_msd s) (p_stop s) (p_reset s) (seen s) (slog s) (panic s) (g_closed s) (g_credits s) (g_expand s) (g_fin s) (g_reset s).
+Definition set_opened (v : bool * bool) (s : st) : st := mkSt (side s) (recvm s) (sendm s) (free_recv s) (nxt s) (maxl s) (max_remote s) (sent_max_remote s) (alloc s) (max_conc s) (next_remote s) v (next_rep s) (send_streams s) (events s) (pendq s) (local_max s) (rwin s) (sent_max_data s) (data_recvd s) (swin s) (debt s) (p_max_data s) (p_msid s) (p_msd s) (p_stop s) (p_reset s) (seen s) (slog s) (panic s) (g_closed s) (g_credits s) (g_expand s) (g_fin s) (g_reset s).
+Definition set_next_rep (v : Z * Z) (s : st) : st := mkSt (side s) (recvm s) (sendm s) (free_recv s) (nxt s) (maxl s) (max_remote s) (sent_max_remote s) (alloc s) (max_conc s) (next_remote s) (opened s) v (send_streams s) (events s) (pendq s) (local_max s) (rwin s) (sent_max_data s) (data_recvd s) (swin s) (debt s) (p_max_data s) (p_msid s) (p_msd s) (p_stop s) (p_reset s) (seen s) (slog s) (panic s) (g_closed s) (g_credits s) (g_expand s) (g_fin s) (g_reset s).
+Definition set_send_streams (v : Z) (s : st) : st := mkSt (side s) (recvm s) (sendm s) (free_recv s) (nxt s) (maxl s) (max_remote s) (sent_max_remote s) (alloc s) (max_conc s) (next_remote s) (opened s) (next_rep s) v (events s) (pendq s) (local_max s) (rwin s) (sent_max_data s) (data_recvd s) (swin s) (debt s) (p_max_data s) (p_msid s) (p_msd s) (p_stop s) (p_reset s) (seen s) (slog s) (panic s) (g_closed s) (g_credits s) (g_expand s) (g_fin s) (g_reset s).
+Definition set_events (v : list (list Z)) (s : st) : st := mkSt (side s) (recvm s) (sendm s) (free_recv s) (nxt s) (maxl s) (max_remote s) (sent_max_remote s) (alloc s) (max_conc s) (next_remote s) (opened s) (next_rep s) (send_streams s) v (pendq s) (local_max s) (rwin s) (sent_max_data s) (data_recvd s) (swin s) (debt s) (p_max_data s) (p_msid s) (p_msd s) (p_stop s) (p_reset s) (seen s) (slog s) (panic s) (g_closed s) (g_credits s) (g_expand s) (g_fin s) (g_reset s).
+Definition set_pendq (v : list Z) (s : st) : st := mkSt (side s) (recvm s) (sendm s) (free_recv s) (nxt s) (maxl s) (max_remote s) (sent_max_remote s) (alloc s) (max_conc s) (next_remote s) (opened s) (next_rep s) (send_streams s) (events s) v (local_max s) (rwin s) (sent_max_data s) (data_recvd s) (swin s) (debt s) (p_max_data s) (p_msid s) (p_msd s) (p_stop s) (p_reset s) (seen s) (slog s) (panic s) (g_closed s) (g_credits s) (g_expand s) (g_fin s) (g_reset s).
+Definition set_local_max (v : Z) (s : st) : st := mkSt (side s) (recvm s) (sendm s) (free_recv s) (nxt s) (maxl s) (max_remote s) (sent_max_remote s) (alloc s) (max_conc s) (next_remote s) (opened s) (next_rep s) (send_streams s) (events s) (pendq s) v (rwin s) (sent_max_data s) (data_recvd s) (swin s) (debt s) (p_max_data s) (p_msid s) (p_msd s) (p_stop s) (p_reset s) (seen s) (slog s) (panic s) (g_closed s) (g_credits s) (g_expand s) (g_fin s) (g_reset s).
+Definition set_rwin (v : Z) (s : st) : st := mkSt (side s) (recvm s) (sendm s) (free_recv s) (nxt s) (maxl s) (max_remote s) (sent_max_remote s) (alloc s) (max_conc s) (next_remote s) (opened s) (next_rep s) (send_streams s) (events s) (pendq s) (local_max s) v (sent_max_data s) (data_recvd s) (swin s) (debt s) (p_max_data s) (p_msid s) (p_msd s) (p_stop s) (p_reset s) (seen s) (slog s) (panic s) (g_closed s) (g_credits s) (g_expand s) (g_fin s) (g_reset s).
+Definition set_sent_max_data (v : Z) (s : st) : st := mkSt (side s) (recvm s) (sendm s) (free_recv s) (nxt s) (maxl s) (max_remote s) (sent_max_remote s) (alloc s) (max_conc s) (next_remote s) (opened s) (next_rep s) (send_streams s) (events s) (pendq s) (local_max s) (rwin s) v (data_recvd s) (swin s) (debt s) (p_max_data s) (p_msid s) (p_msd s) (p_stop s) (p_reset s) (seen s) (slog s) (panic s) (g_closed s) (g_credits s) (g_expand s) (g_fin s) (g_reset s).
+Definition set_data_recvd (v : Z) (s : st) : st := mkSt (side s) (recvm s) (sendm s) (free_recv s) (nxt s) (maxl s) (max_remote s) (sent_max_remote s) (alloc s) (max_conc s) (next_remote s) (opened s) (next_rep s) (send_streams s) (events s) (pendq s) (local_max s) (rwin s) (sent_max_data s) v (swin s) (debt s) (p_max_data s) (p_msid s) (p_msd s) (p_stop s) (p_reset s) (seen s) (slog s) (panic s) (g_closed s) (g_credits s) (g_expand s) (g_fin s) (g_reset s).
+Definition set_swin (v : Z) (s : st) : st := mkSt (side s) (recvm s) (sendm s) (free_recv s) (nxt s) (maxl s) (max_remote s) (sent_max_remote s) (alloc s) (max_conc s) (next_remote s) (opened s) (next_rep s) (send_streams s) (events s) (pendq s) (local_max s) (rwin s) (sent_max_data s) (data_recvd s) v (debt s) (p_max_data s) (p_msid s) (p_msd s) (p_stop s) (p_reset s) (seen s) (slog s) (panic s) (g_closed s) (g_credits s) (g_expand s) (g_fin s) (g_reset s).
+Definition set_debt (v : Z) (s : st) : st := mkSt (side s) (recvm s) (sendm s) (free_recv s) (nxt s) (maxl s) (max_remote s) (sent_max_remote s) (alloc s) (max_conc s) (next_remote s) (opened s) (next_rep s) (send_streams s) (events s) (pendq s) (local_max s) (rwin s) (sent_max_data s) (data_recvd s) (swin s) v (p_max_data s) (p_msid s) (p_msd s) (p_stop s) (p_reset s) (seen s) (slog s) (panic s) (g_closed s) (g_credits s) (g_expand s) (g_fin s) (g_reset s).
+Definition set_p_max_data (v : bool) (s : st) : st := mkSt (side s) (recvm s) (sendm s) (free_recv s) (nxt s) (maxl s) (max_remote s) (sent_max_remote s) (alloc s) (max_conc s) (next_remote s) (opened s) (next_rep s) (send_streams s) (events s) (pendq s) (local_max s) (rwin s) (sent_max_data s) (data_recvd s) (swin s) (debt s) v (p_msid s) (p_msd s) (p_stop s) (p_reset s) (seen s) (slog s) (panic s) (g_closed s) (g_credits s) (g_expand s) (g_fin s) (g_reset s).
+Definition set_p_msid (v : bool * bool) (s : st) : st := mkSt (side s) (recvm s) (sendm s) (free_recv s) (nxt s) (maxl s) (max_remote s) (sent_max_remote s) (alloc s) (max_conc s) (next_remote s) (opened s) (next_rep s) (send_streams s) (events s) (pendq s) (local_max s) (rwin s) (sent_max_data s) (data_recvd s) (swin s) (debt s) (p_max_data s) v (p_msd s) (p_stop s) (p_reset s) (seen s) (slog s) (panic s) (g_closed s) (g_credits s) (g_expand s) (g_fin s) (g_reset s).
+Definition set_p_msd (v : list Z) (s : st) : st := mkSt (side s) (recvm s) (sendm s) (free_recv s) (nxt s) (maxl s) (max_remote s) (sent_max_remote s) (alloc s) (max_conc s) (next_remote s) (opened s) (next_rep s) (send_streams s) (events s) (pendq s) (local_max s) (rwin s) (sent_max_data s) (data_recvd s) (swin s) (debt s) (p_max_data s) (p_msid s) v (p_stop s) (p_reset s) (seen s) (slog s) (panic s) (g_closed s) (g_credits s) (g_expand s) (g_fin s) (g_reset s).
+Definition set_p_stop (v : list (Z * Z)) (s : st) : st := mkSt (side s) (recvm s) (sendm s) (free_recv s) (nxt s) (maxl s) (max_remote s) (sent_max_remote s) (alloc s) (max_conc s) (next_remote s) (opened s) (next_rep s) (send_streams s) (events s) (pendq s) (local_max s) (rwin s) (sent_max_data s) (data_recvd s) (swin s) (debt s) (p_max_data s) (p_msid s) (p_msd s) v (p_reset s) (seen s) (slog s) (panic s) (g_closed s) (g_credits s) (g_expand s) (g_fin s) (g_reset s).
+Definition set_p_reset (v : list (Z * Z)) (s : st) : st := mkSt (side s) (recvm s) (sendm s) (free_recv s) (nxt s) (maxl s) (max_remote s) (sent_max_remote s) (alloc s) (max_conc s) (next_remote s) (opened s) (next_rep s) (send_streams s) (events s) (pendq s) (local_max s) (rwin s) (sent_max_data s) (data_recvd s) (swin s) (debt s) (p_max_data s) (p_msid s) (p_msd s) (p_stop s) v (seen s) (slog s) (panic s) (g_closed s) (g_credits s) (g_expand s) (g_fin s) (g_reset s).
+Definition set_seen (v : list Z) (s : st) : st := mkSt (side s) (recvm s) (sendm s) (free_recv s) (nxt s) (maxl s) (max_remote s) (sent_max_remote s) (alloc s) (max_conc s) (next_remote s) (opened s) (next_rep s) (send_streams s) (events s) (pendq s) (local_max s) (rwin s) (sent_max_data s) (data_recvd s) (swin s) (debt s) (p_max_data s) (p_msid s) (p_msd s) (p_stop s) (p_reset s) v (slog s) (panic s) (g_closed s) (g_credits s) (g_expand s) (g_fin s) (g_reset s).
+Definition set_slog (v : list ((Z * Z * Z * Z) * Z)) (s : st) : st := mkSt (side s) (recvm s) (sendm s) (free_recv s) (nxt s) (maxl s) (max_remote s) (sent_max_remote s) (alloc s) (max_conc s) (next_remote s) (opened s) (next_rep s) (send_streams s) (events s) (pendq s) (local_max s) (rwin s) (sent_max_data s) (data_recvd s) (swin s) (debt s) (p_max_data s) (p_msid s) (p_msd s) (p_stop s) (p_reset s) (seen s) v (panic s) (g_closed s) (g_credits s) (g_expand s) (g_fin s) (g_reset s).
+Definition set_panic (v : bool) (s : st) : st := mkSt (side s) (recvm s) (sendm s) (free_recv s) (nxt s) (maxl s) (max_remote s) (sent_max_remote s) (alloc s) (max_conc s) (next_remote s) (opened s) (next_rep s) (send_streams s) (events s) (pendq s) (local_max s) (rwin s) (sent_max_data s) (data_recvd s) (swin s) (debt s) (p_max_data s) (p_msid s) (p_msd s) (p_stop s) (p_reset s) (seen s) (slog s) v (g_closed s) (g_credits s) (g_expand s) (g_fin s) (g_reset s).
+Definition set_g_closed (v : Z) (s : st) : st := mkSt (side s) (recvm s) (sendm s) (free_recv s) (nxt s) (maxl s) (max_remote s) (sent_max_remote s) (alloc s) (max_conc s) (next_remote s) (opened s) (next_rep s) (send_streams s) (events s) (pendq s) (local_max s) (rwin s) (sent_max_data s) (data_recvd s) (swin s) (debt s) (p_max_data s) (p_msid s) (p_msd s) (p_stop s) (p_reset s) (seen s) (slog s) (panic s) v (g_credits s) (g_expand s) (g_fin s) (g_reset s).
+Definition set_g_credits (v : Z) (s : st) : st := mkSt (side s) (recvm s) (sendm s) (free_recv s) (nxt s) (maxl s) (max_remote s) (sent_max_remote s) (alloc s) (max_conc s) (next_remote s) (opened s) (next_rep s) (send_streams s) (events s) (pendq s) (local_max s) (rwin s) (sent_max_data s) (data_recvd s) (swin s) (debt s) (p_max_data s) (p_msid s) (p_msd s) (p_stop s) (p_reset s) (seen s) (slog s) (panic s) (g_closed s) v (g_expand s) (g_fin s) (g_reset s).
+Definition set_g_expand (v : Z) (s : st) : st := mkSt (side s) (recvm s) (sendm s) (free_recv s) (nxt s) (maxl s) (max_remote s) (sent_max_remote s) (alloc s) (max_conc s) (next_remote s) (opened s) (next_rep s) (send_streams s) (events s) (pendq s) (local_max s) (rwin s) (sent_max_data s) (data_recvd s) (swin s) (debt s) (p_max_data s) (p_msid s) (p_msd s) (p_stop s) (p_reset s) (seen s) (slog s) (panic s) (g_closed s) (g_credits s) v (g_fin s) (g_reset s).
+Definition set_g_fin (v : list Z) (s : st) : st := mkSt (side s) (recvm s) (sendm s) (free_recv s) (nxt s) (maxl s) (max_remote s) (sent_max_remote s) (alloc s) (max_conc s) (next_remote s) (opened s) (next_rep s) (send_streams s) (events s) (pendq s) (local_max s) (rwin s) (sent_max_data s) (data_recvd s) (swin s) (debt s) (p_max_data s) (p_msid s) (p_msd s) (p_stop s) (p_reset s) (seen s) (slog s) (panic s) (g_closed s) (g_credits s) (g_expand s) v (g_reset s).
+Definition set_g_reset (v : list Z) (s : st) : st := mkSt (side s) (recvm s) (sendm s) (free_recv s) (nxt s) (maxl s) (max_remote s) (sent_max_remote s) (alloc s) (max_conc s) (next_remote s) (opened s) (next_rep s) (send_streams s) (events s) (pendq s) (local_max s) (rwin s) (sent_max_data s) (data_recvd s) (swin s) (debt s) (p_max_data s) (p_msid s) (p_msd s) (p_stop s) (p_reset s) (seen s) (slog s) (panic s) (g_closed s) (g_credits s) (g_expand s) (g_fin s) v.
 
 
 Definition rview (s : st) (t : rslot) : recv :=
@@ -681,14 +692,15 @@ Definition sreset_op (id code : Z) (s : st) : st * list Z :=
   | Some t =>
       let sd := sview t in
       if s_state sd =? 3 then (with_send id sd s, [3])
-      else (set_p_reset (p_reset s ++ [(id, code)]) (with_send id (send_set_state sd 3) s), [0])
+      else (set_g_reset (id :: g_reset s)
+              (set_p_reset (p_reset s ++ [(id, code)]) (with_send id (send_set_state sd 3) s)), [0])
   end.
 
 Definition reset_acked_op (id : Z) (s : st) : st * list Z :=
   match alookup id (sendm s) with
   | Some (TSome sd) =>
       if s_state sd =? 3
-      then (stream_freed id true (set_sendm (aremove id (sendm s)) s), [0])
+      then (stream_freed id true (set_sendm (aremove_all id (sendm s)) s), [0])
       else (s, [0])
   | _ => (s, [0])
   end.
@@ -737,38 +749,82 @@ Definition note_tx (r : res bool) (s : st) : st :=
 Definition init (sd mru mrb rw srw pmb pmu : Z) : st :=
   let s0 := mkSt sd [] [] 0 (0, 0) (pmb, pmu) (mrb, mru) (mrb, mru) (mrb, mru) (mrb, mru)
                  (0, 0) (false, false) (0, 0) 0 [] [] rw rw rw 0 srw 0
-                 false (false, false) [] [] [] [] [] false 0 0 0 in
+                 false (false, false) [] [] [] [] [] false 0 0 0 [] [] in
   insert_remote_range (Z.to_nat mru) 1 0 (insert_remote_range (Z.to_nat mrb) 0 0 s0).
 
 (** One op of the receive-side component: (state, result, names a stream?, trailing list). *)
 Definition step_core (fx : bool) (s : st) (op : list Z) : option (st * list Z * option Z * list Z) :=
   match op with
-  | [1; id; off; len; fin] =>
-      let '(s', r) := received fx id off len (negb (fin =? 0)) (see id s) in
-      Some (note_tx r s', res_out r, Some id, [])
-  | [2; id; code; final] =>
-      let '(s', r) := received_reset fx id code final (see id s) in
-      Some (note_tx r s', res_out r, Some id, [])
-  | [3; id; ordered; budget] =>
-      let '(s', o) := read_op fx id (negb (ordered =? 0)) budget (see id s) in
-      Some (s', o, Some id, [])
-  | [4; id; code] =>
-      let '(s', o) := stop_op fx id code (see id s) in Some (s', o, Some id, [])
-  | [5; id] =>
-      let '(s', o) := rreset_op id (see id s) in Some (s', o, Some id, [])
-  | [6; w] => let '(s', o) := set_window_op w s in Some (s', o, None, [])
-  | [7; a; b; c] =>
-      let '(s', o, l) := control_op (negb (a =? 0)) (negb (b =? 0)) (negb (c =? 0)) s in
-      Some (s', o, None, l)
-  | [8; d] =>
-      let '(s', o) := open_op (if d =? 0 then 0 else 1) s in
-      Some (match o with [0; id] => see id s' | _ => s' end, o, None, [])
-  | [9; d] =>
-      let '(s', o) := accept_op (if d =? 0 then 0 else 1) s in
-      Some (match o with [0; id] => see id s' | _ => s' end, o, None, [])
-  | [12; id; code] => let '(s', o) := sreset_op id code s in Some (s', o, Some id, [])
-  | [17; id] => let '(s', o) := reset_acked_op id s in Some (s', o, Some id, [])
-  | _ => None
+  | [] => None
+  | c :: a =>
+      if c =? 1 then
+        match a with
+        | [id; off; len; fin] =>
+            let '(s', r) := received fx id off len (negb (fin =? 0)) (see id s) in
+            Some (note_tx r s', res_out r, Some id, [])
+        | _ => None
+        end
+      else if c =? 2 then
+        match a with
+        | [id; code; final] =>
+            let '(s', r) := received_reset fx id code final (see id s) in
+            Some (note_tx r s', res_out r, Some id, [])
+        | _ => None
+        end
+      else if c =? 3 then
+        match a with
+        | [id; ordered; budget] =>
+            let '(s', o) := read_op fx id (negb (ordered =? 0)) budget (see id s) in
+            Some (s', o, Some id, [])
+        | _ => None
+        end
+      else if c =? 4 then
+        match a with
+        | [id; code] => let '(s', o) := stop_op fx id code (see id s) in Some (s', o, Some id, [])
+        | _ => None
+        end
+      else if c =? 5 then
+        match a with
+        | [id] => let '(s', o) := rreset_op id (see id s) in Some (s', o, Some id, [])
+        | _ => None
+        end
+      else if c =? 6 then
+        match a with
+        | [w] => let '(s', o) := set_window_op w s in Some (s', o, None, [])
+        | _ => None
+        end
+      else if c =? 7 then
+        match a with
+        | [x; y; z] =>
+            let '(s', o, l) := control_op (negb (x =? 0)) (negb (y =? 0)) (negb (z =? 0)) s in
+            Some (s', o, None, l)
+        | _ => None
+        end
+      else if c =? 8 then
+        match a with
+        | [d] =>
+            let '(s', o) := open_op (if d =? 0 then 0 else 1) s in
+            Some (match o with [0; id] => see id s' | _ => s' end, o, None, [])
+        | _ => None
+        end
+      else if c =? 9 then
+        match a with
+        | [d] =>
+            let '(s', o) := accept_op (if d =? 0 then 0 else 1) s in
+            Some (match o with [0; id] => see id s' | _ => s' end, o, None, [])
+        | _ => None
+        end
+      else if c =? 12 then
+        match a with
+        | [id; code] => let '(s', o) := sreset_op id code s in Some (s', o, Some id, [])
+        | _ => None
+        end
+      else if c =? 17 then
+        match a with
+        | [id] => let '(s', o) := reset_acked_op id s in Some (s', o, Some id, [])
+        | _ => None
+        end
+      else None
   end.
 
 Definition observe (s : st) (o : list Z) (id : option Z) (l : list Z) : list Z :=
